@@ -23,6 +23,7 @@ import json
 import keyword
 import multiprocessing
 import os
+import re
 import traceback
 import warnings
 
@@ -46,6 +47,7 @@ CODE_TEXT = {
     4: "MODEL vs rope: proposals differ (later_locals=False)",
     5: "MODEL vs rope: definition line differs",
     6: "MODEL vs rope: an undotted position of rope is not one of the model",
+    7: "MODEL vs rope: attribute proposals differ (receiver the model knows to be a class)",
     9: "outside the model's domain (cyclic superclasses)",
     11: "SPEC vs CPython: visible names of a scope differ",
     21: "inside the theorems' domain but the model's proposals and the SPEC's visible names differ",
@@ -109,23 +111,33 @@ def name_tokens(tree, src):
 
 
 def observe_definitions(src, tree):
-    from rope.contrib import codeassist
+    """get_definition_location and findit.find_definition at every Name token: (offset, node, line, same module,
+    exception record, find_definition answer = None | (lineno, text at its region, resource is ours))"""
+    from rope.contrib import codeassist, findit
     pr = c15.project()
     res = c15._resource
     out = []
     for (o, node) in name_tokens(tree, src):
+        entry = "get_definition_location"
         try:
             with c20_sweep.time_limit():
                 r, line = codeassist.get_definition_location(pr, src, o, resource=res, maxfixes=1)
             same = r is None or r == res
-            out.append((o, node, line, same, None))
+            entry = "find_definition"
+            with c20_sweep.time_limit():
+                loc = findit.find_definition(pr, src, o, resource=res, maxfixes=1)
+            fd = None
+            if loc is not None:
+                ours = loc.resource is None or loc.resource == res
+                fd = (loc.lineno, src[loc.region[0]:loc.region[1]] if ours else None, ours)
+            out.append((o, node, line, same, None, fd))
         except Exception as e:  # noqa: BLE001
-            sig = c20_sweep.signature_of("get_definition_location", e, e.__traceback__, src, o)
-            out.append((o, node, None, True, {"kind": "sweep", "entry": "get_definition_location", "text": src,
+            sig = c20_sweep.signature_of(entry, e, e.__traceback__, src, o)
+            out.append((o, node, None, True, {"kind": "sweep", "entry": entry, "text": src,
                                               "offset": o, "maxfixes": 1, "truncated": False,
                                               "with_resource": True, "focus": sig,
                                               "exception": type(e).__name__,
-                                              "traceback": "".join(traceback.format_exception(e))[-1500:]}))
+                                              "traceback": "".join(traceback.format_exception(e))[-1500:]}, None))
     return out
 
 
@@ -206,6 +218,63 @@ def value_on_statement_line(tree):
     return True
 
 
+NAME_BEFORE = tuple("([{,=+-*/%<>:&|^~@!")
+
+
+def truncation_expectation(orc, src):
+    """completeness oracle for the sweep: on a truncated line that stands for a whole simple statement (or is still
+    valid), at a position where a name can be typed, every name visible from the statement's scope whose spelling
+    extends the typed prefix is offered - the names bound by the statement itself aside (the repair comments it out)"""
+    bound_cache = {}
+
+    def bound_on(ls):
+        if ls not in bound_cache:
+            out = set()
+            st = orc._stmt_at.get(ls)
+            if st is not None:
+                for n in orc._own_expr_nodes(st):
+                    if isinstance(n, ast.Name) and isinstance(n.ctx, (ast.Store, ast.Del)):
+                        out.add(n.id)
+                    elif isinstance(n, ast.alias):
+                        out.add(n.asname or n.name.split(".")[0])
+                    elif isinstance(n, (ast.FunctionDef, ast.AsyncFunctionDef, ast.ClassDef)):
+                        out.add(n.name)
+                    elif isinstance(n, (ast.Global, ast.Nonlocal)):
+                        out.update(n.names)
+            bound_cache[ls] = out
+        return bound_cache[ls]
+
+    def expect(text, offset, got):
+        ls0 = text.rfind("\n", 0, offset) + 1
+        before = text[ls0:offset]
+        if any(ch in before for ch in "'\"#\\") or before.strip() == "":
+            return None                      # strings / comments; a blank line takes the scope of what follows
+        prefix = c20_oracle.ID_RE.search(before).group()
+        head = before[:len(before) - len(prefix)].rstrip(" \t")
+        if prefix[:1].isdigit() or head.endswith(".") or re.search(r"(^|\s)(from|import|global|nonlocal|def|class|as)(\s|$)", head):
+            return None
+        if head:
+            word = c20_oracle.ID_RE.search(head).group()
+            if not (head.endswith(NAME_BEFORE) or (word and keyword.iskeyword(word) and word not in ("None", "True", "False"))):
+                return None
+        line = text.count("\n", 0, offset) + 1
+        ls = orc.logical_start(line)
+        if ls is None or ls != line:
+            return None                      # continuation and blank lines: the scope of the repaired text may differ
+        names = {p.name for p in got if p.scope not in ("keyword", "parameter_keyword")}
+        skip = bound_on(ls)
+        best = None
+        for c in orc.candidates(line):
+            missing = [x for x in sorted(orc.visible_set(c, prefix) - skip - names) if orc.attributed(x, c) is None]
+            if best is None or len(missing) < len(best):
+                best = missing
+        if best:
+            return "truncated-line:visible-name-missing"
+        return None
+
+    return expect
+
+
 def ensure_helper_module():
     """the scenario stream imports from a module that exists in the scratch project (at its root)"""
     c15.project()
@@ -235,10 +304,13 @@ def check_module(args):
         except Exception as e:  # noqa: BLE001 - C15's own open finding (superclass inference crash) or worse
             res["note"] = "c15.observe raised %r" % (e,)
             o15 = None
+        expect = None
         if o15 is not None:
-            _check_observed(src, o15, res, count)
+            orc = _check_observed(src, o15, res, count)
+            if not orc.scope_causes and not orc.star_names:
+                expect = truncation_expectation(orc, src)
         if do_sweep:
-            st, found = c20_sweep.sweep_module(src, full=sweep_full)
+            st, found = c20_sweep.sweep_module(src, full=sweep_full, expect=expect)
             res["sweep"] = (st, found)
     except Exception:  # noqa: BLE001
         res["crash"] = traceback.format_exc()
@@ -261,6 +333,7 @@ def _check_observed(src, o15, res, count):
 
     # ---- oracle over every offset
     items = {}
+    ditems = {}
     vline = value_on_statement_line(tr.tree)
     for o in range(n + 1):
         pos = orc.position(o)
@@ -333,6 +406,10 @@ def _check_observed(src, o15, res, count):
                     for pb in probs:
                         res["problems"].append({"focus": "proposals:" + pb[0], "offset": o, "later_locals": ll,
                                                 "detail": repr(pb[1:]), "scope": list(cand.key)})
+        # dotted items for the Coq case: the receiver is a plain name (the model decides whether it is a class)
+        if isinstance(pt, set) and expr.isidentifier() and not keyword.iskeyword(expr) and not pos.from_import \
+                and not pos.in_ignored:
+            ditems.setdefault((src.count("\n", 0, so) + 1, expr, starting, frozenset(pt)), o)
         # items for the Coq case: undotted (as rope sees it), not a from-import line
         if isinstance(pt, set) and isinstance(pf, set) and expr.strip() == "" and not pos.from_import:
             line = src.count("\n", 0, so) + 1
@@ -347,7 +424,7 @@ def _check_observed(src, o15, res, count):
         r.dup = r.key in rope_by_key
         rope_by_key.setdefault(r.key, r)
     gdefs = []
-    for (o, node, line, same, exc) in defs:
+    for (o, node, line, same, exc, fd) in defs:
         count("definition-lookups")
         if exc is not None:
             res["exceptions"].append(exc)
@@ -361,6 +438,25 @@ def _check_observed(src, o15, res, count):
             inherit(cause)
         if pb:
             res["problems"].append({"focus": "definition-line", "offset": o, "detail": repr(pb)})
+        # findit.find_definition = the first occurrence of the name at or after its definition line; judged where
+        # the definition line itself is right
+        if pb is None and cause is None:
+            bad = None
+            if line is None:
+                bad = fd is not None and "a location although the definition line is unknown"
+            elif fd is None:
+                if same and orc.defined_by_statement_name(node, line):
+                    inherit("C02:class-name-own-attribute")      # the name in its own def / class header
+                elif same:
+                    bad = "no location although the definition line is %d" % line
+            elif same and (not fd[2] or fd[1] != node.id):
+                bad = "the location is not an occurrence of the name"
+            elif fd[0] < line:
+                bad = "line %d, before the definition line %d" % (fd[0], line)
+            elif fd[0] > line and same:
+                inherit("C02:occurrence-on-definition-line-unmatched")
+            if bad:
+                res["problems"].append({"focus": "find-definition", "offset": o, "detail": "%s: %s" % (node.id, bad)})
         if same and vline:
             path = region_scope_path(orc.facts, node, rope_by_key)
             if path is not None:
@@ -372,13 +468,15 @@ def _check_observed(src, o15, res, count):
     if not src.isascii() or orc.star_names:
         model_ok = False                 # names brought by a star import that resolves are not in the model's tables
     if model_ok:
-        res["case"] = case_term(src, o15, rp, items, gdefs)
+        res["case"] = case_term(src, o15, rp, items, gdefs, ditems)
+        res["n_ditems"] = len(ditems)
         res["n_items"] = len(items)
         res["n_defs"] = len(gdefs)
+    return orc
 
 
 # ============================================================================ Gallina case
-def case_term(src, o15, rp, items, gdefs):
+def case_term(src, o15, rp, items, gdefs, ditems=None):
     from rope.base import simplify
     tr = o15.tr
     universe = list(o15.idents)
@@ -413,15 +511,22 @@ def case_term(src, o15, rp, items, gdefs):
         for p in o15.py_scopes:
             pyvis.append("(%s, %s)" % (c15.g_path(p.path), tr.g_idents(
                 [x for x in o15.idents if p.resolve[x] is not None])))
+    g_ditems = []
+    for (_line, _e, _st, got), o in sorted((ditems or {}).items(), key=lambda kv: kv[1]):
+        obs = []
+        for (nm, sc) in sorted(got, key=lambda e: (tr.intern(e[0]) if e[0] in known else -1, e[1])):
+            if nm in known and sc in ("attribute", "imported"):
+                obs.append("(%s, %s)" % (tr.g_ident(nm), g_N(6 if sc == "attribute" else 4)))
+        g_ditems.append("(%s, %s)" % (g_N(o), g_list(obs)))
     spell = g_list([g_text(s) for s in tr.idents])
     return ("{| c_prog := %s;\n c_layout := %s;\n c_builtins := %s;\n c_idents := %s;\n c_spell := %s;\n c_kws := %s;\n"
             " c_code := %s;\n c_raw := %s;\n c_regions := %s;\n c_splits := %s;\n c_lstarts := %s;\n c_items := %s;\n"
-            " c_defs := %s;\n c_py_visible := %s |}" % (
+            " c_defs := %s;\n c_py_visible := %s;\n c_ditems := %s |}" % (
                 tr.prog, tr.layout, tr.g_idents([x for x in tr.idents if x in PY_BUILTINS]),
                 tr.g_idents(o15.idents), spell, g_list([g_text(k) for k in keyword.kwlist]),
                 g_text(code), g_text(src), g_list(["(%s, %s)" % (g_N(a), g_N(b)) for a, b in regions]),
                 g_list(splits), g_list([g_N(s) for s in rp["lstarts"]]), g_list(g_items), g_list(g_defs),
-                g_list(pyvis)))
+                g_list(pyvis), g_list(g_ditems)))
 
 
 def coq_codes(ctx, terms):
@@ -430,7 +535,8 @@ def coq_codes(ctx, terms):
     shard = 4
     for s in range(0, len(terms), shard):
         bodies.append(HEADER + "Definition cases : list case := [\n%s\n].\nEval vm_compute in (mismatches cases).\n"
-                      "Eval vm_compute in (in_domain cases).\n" % ";\n".join(terms[s:s + shard]))
+                      "Eval vm_compute in (in_domain cases).\nEval vm_compute in (dotted_covered cases).\n"
+                      % ";\n".join(terms[s:s + shard]))
     outs = ctx.coq_files_parallel(bodies, jobs=8) if bodies else []
     codes, dom = {}, []
     for si, out in enumerate(outs):
@@ -438,13 +544,15 @@ def coq_codes(ctx, terms):
         for (i, code) in (pairs[0] if pairs else []):
             codes[si * shard + i] = code
         nums = ctx.parse_nums(out)
-        dom.extend(nums[-1] if nums else [])
+        dom.extend(nums[-2] if len(nums) >= 2 else [])
+        ctx.extra["dotted_items_compared_with_the_model"] = ctx.extra.get(
+            "dotted_items_compared_with_the_model", 0) + (sum(nums[-1]) if nums else 0)
     return codes, dom
 
 
 # ============================================================================ signature / replay
 def signature(obj):
-    if obj.get("kind") in ("sweep", "module", "corpus"):
+    if obj.get("kind") in ("sweep", "module", "corpus", "session"):
         return obj.get("focus")
     return None
 
@@ -452,6 +560,8 @@ def signature(obj):
 def replay(ctx, obj):
     """True = the recorded failure still occurs on the current tree"""
     kind = obj.get("kind")
+    if kind == "session":
+        return run_session(obj) is not None
     if kind == "sweep":
         if obj.get("with_resource"):
             return _replay_with_resource(obj)
@@ -495,6 +605,9 @@ def _replay_with_resource(obj):
                                            maxfixes=obj.get("maxfixes", 1), later_locals=(e == "code_assist"))
                 elif e == "get_definition_location":
                     codeassist.get_definition_location(pr, obj["text"], obj["offset"], resource=res)
+                elif e == "find_definition":
+                    from rope.contrib import findit
+                    findit.find_definition(pr, obj["text"], obj["offset"], resource=res)
                 else:
                     codeassist.starting_offset(obj["text"], obj["offset"])
         except Exception as ex:  # noqa: BLE001
@@ -561,6 +674,7 @@ def run(ctx):
     with multiprocessing.Pool(jobs) as pool:
         results = pool.map(check_module, tasks, chunksize=1)
     report(ctx, results)
+    run_sessions(ctx)
 
 
 def report(ctx, results):
@@ -648,6 +762,8 @@ WITNESSES = [
      "xa = 1\nxab = 2\ndef fo(al):\n    global xa\n    xa = al\n    xab = xa\n    return xab\nfo(xa)\n"),
     ("later_import", "later_locals=False keeps an import written after the cursor line (and drops the assignment)",
      "def fo():\n    pass\n    import os\n    zz = 1\n"),
+    ("klass", "a class with a class attribute, a method and an instance attribute, used as a receiver",
+     "class Kl:\n    ka = 1\n    def me(self):\n        self.kb = 2\n        return self\nxa = Kl.ka\n"),
     ("line_unknown", "a walrus target and a name first declared by a bare annotation have no definition line",
      "def fo(al):\n    (wa := al)\n    an: int\n    an = wa\n    return wa, an\n"),
 ]
@@ -680,3 +796,112 @@ def write_witnesses(path=None):
     with open(path, "w") as f:
         f.write("\n".join(out))
     return path
+
+
+# ============================================================================ sessions (a live project)
+# A saved, unchanged module that star-imports a library module is queried with resource= given and the text equal
+# to the file (so the project's cached PyModule answers); the library is rewritten THROUGH rope between queries.
+# Oracle: the live project answers like a project freshly opened on the same files, and offers / resolves exactly
+# the public names of the library's current text.
+SESSION_NAMES = ["circle", "cirque", "cone", "cube", "curve", "square", "sphere", "spline"]
+
+
+def gen_session(rng):
+    names = list(SESSION_NAMES)
+    rng.shuffle(names)
+    versions = []
+    cur = names[:rng.randint(2, 4)]
+    for _ in range(rng.randint(2, 3)):
+        body = []
+        for i, n in enumerate(cur):
+            body.append(rng.choice(["def %s(al):\n    return al\n", "%s = %d\n" % ("%s", i), "class %s:\n    size = 1\n"]) % n)
+            if rng.random() < 0.4:
+                body.append("\n# note\n")
+        versions.append("".join(body))
+        nxt = [n for n in cur if rng.random() < 0.75]
+        nxt += [n for n in names if n not in cur and rng.random() < 0.4]
+        cur = nxt or names[:2]
+    picks = rng.sample(SESSION_NAMES, 3)
+    use = ("from shapes import *\n\n\ndef fo(al):\n    alp = %s\n    return alp, al, %s\n\nxa = %s\n"
+           % (picks[0][:2], picks[1][:3], picks[2]))
+    return {"kind": "session", "versions": versions, "use": use}
+
+
+def run_session(obj):
+    """returns None or a description of the first deviation"""
+    import shutil
+    import tempfile
+    from rope.base.project import Project
+    from rope.contrib import codeassist, findit
+    use = obj["use"]
+    offsets = [m.end() for m in re.finditer(r"[A-Za-z_]+", use)]
+    d = tempfile.mkdtemp(prefix="ropeverif-c20x-")
+
+    def ask(project):
+        res = project.get_resource("use.py")
+        out = []
+        for o in offsets:
+            with c20_sweep.time_limit():
+                ps = codeassist.code_assist(project, use, o, resource=res)
+            out.append(("assist", o, tuple(sorted((p.name, p.scope) for p in ps))))
+            with c20_sweep.time_limit():
+                r, line = codeassist.get_definition_location(project, use, o - 1, resource=res)
+            out.append(("definition", o, (None if r is None else r.path, line)))
+            with c20_sweep.time_limit():
+                loc = findit.find_definition(project, use, o - 1, resource=res)
+            out.append(("find", o, None if loc is None else (loc.resource.path if loc.resource else None, loc.lineno)))
+        return out
+
+    try:
+        live = Project(d, ropefolder=None)
+        try:
+            lib = live.root.create_file("shapes.py")
+            lib.write(obj["versions"][0])
+            live.root.create_file("use.py").write(use)
+            ask(live)                                     # warm the caches
+            for k, text in enumerate(obj["versions"]):
+                if k:
+                    lib.write(text)                       # through rope: observers run
+                got = ask(live)
+                fresh = Project(d, ropefolder=None)
+                try:
+                    want = ask(fresh)
+                finally:
+                    fresh.close()
+                for g, w in zip(got, want):
+                    if g != w:
+                        return "after version %d of shapes.py, %s at offset %d: live project %r, fresh project %r" % (
+                            k, g[0], g[1], g[2], w[2])
+                public = set(c20_oracle.Oracle.public_names(text))
+                for (what, o, val) in got:
+                    if what == "assist":
+                        pre = re.search(r"[A-Za-z_]*$", use[:o]).group()
+                        line_start = use.rfind("\n", 0, o) + 1
+                        if use[line_start:o].lstrip().startswith(("from", "def")) or use[:o].endswith("."):
+                            continue
+                        names = {n for (n, _s) in val}
+                        for x in sorted(public):
+                            if x.startswith(pre) and x not in names:
+                                return "after version %d of shapes.py the star-imported %s is not offered for %r at offset %d" % (k, x, pre, o)
+                        for x in sorted(set(SESSION_NAMES) - public):
+                            if x in names:
+                                return "after version %d of shapes.py the removed name %s is still offered at offset %d" % (k, x, o)
+        finally:
+            live.close()
+    finally:
+        shutil.rmtree(d, ignore_errors=True)
+    return None
+
+
+def run_sessions(ctx):
+    n = ctx.scale(4, 30)
+    for _ in range(n):
+        obj = gen_session(ctx.rng)
+        ctx.count("sessions")
+        ctx.case(("session", obj["use"], tuple(obj["versions"])), nontrivial=True)
+        try:
+            dev = run_session(obj)
+        except Exception as e:  # noqa: BLE001
+            dev = "exception %r" % (e,)
+        if dev:
+            ctx.violation(dict(obj, focus="session", observed=dev), "C20 session: " + dev[:300])
